@@ -16,13 +16,13 @@ import (
 )
 
 type env struct {
-	r      *core.Run
-	srv    *ck.Servers
-	pki    *ck.PKI
-	a      *app.App
-	signer string
-	nonce  int
-	det    []detConfig
+	r       *core.Run
+	srv     *ck.Servers
+	pki     *ck.PKI
+	a       *app.App
+	signer  string
+	nonce   int
+	det     []detConfig
 	jwtKeys map[string]*ck.SigningKey
 }
 
@@ -275,6 +275,7 @@ func (e *env) runPair(pc pairCase) {
 		e.r.Count("pairs_class:"+pc.Class, 1)
 		if nontrivial {
 			e.r.Count("pairs_nontrivial", 1)
+			e.r.Count("pairs_nontrivial_component:"+pc.Mechanism+"/"+pc.Component, 1)
 		}
 		if os.Getenv("VERIF_DEBUG") != "" {
 			fmt.Printf("DEBUG pair %s/%s %s nontrivial=%v hits=%d: %s\n", pc.Mechanism, pc.Component, order, nontrivial, hits, core.JSON(rec.Steps))
@@ -322,6 +323,14 @@ func pairSignature(pc pairCase, bad stepCmp) string {
 	case "http-request-body":
 		if bad.Hit {
 			return "httpcache-key-ignores-request-body"
+		}
+	case "subject-id-unused-by-templates":
+		if bad.Hit {
+			return "subject-id-not-in-cache-key:" + m
+		}
+	case "url-unparsable-query-from-subject", "url-unparsable-query-from-value":
+		if bad.Hit {
+			return "rendered-url-query-not-in-cache-key:" + m
 		}
 	case "http-vary-header":
 		if bad.Hit {
